@@ -374,7 +374,8 @@ class Engine:
         """
         # TODO: Maybe a property setter like input_values.
         values = tuple(output_variable.value for output_variable in self.output_variables)
-        result = np.column_stack(values) if values else np.array(values)
+        # after a batch, a disabled or non-activated output variable holds one value for every row
+        result = np.column_stack(np.broadcast_arrays(*values)) if values else np.array(values)
         return result
 
     @property
